@@ -85,7 +85,7 @@ def run_target(t, timeout_ms=None):
         # `from math import prod as _prod`, `from itertools import accumulate`: the local name stands for the standard-library function (modelled below where the engine knows it)
         ex.import_aliases = {}
         for n_ in tree.body:
-            if isinstance(n_, _ast.ImportFrom) and n_.module in ("math", "itertools", "functools", "operator"):
+            if isinstance(n_, _ast.ImportFrom) and n_.module in ("math", "itertools", "functools", "operator", "copy"):
                 for a_ in n_.names:
                     ex.import_aliases[a_.asname or a_.name] = "%s.%s" % (n_.module, a_.name)
         # module-level constants of the source file (NAME = <literal>): visible to the function like any global, unless the target's own setup binds the name
